@@ -1,4 +1,103 @@
-/- oracle_c16 — placeholder driver (replaced when the C16 model is added). -/
+/-
+  oracle_c16 — line-protocol driver for the C16 models (block store + snappy).
+  The driver keeps one BlockDB.State; byte strings are hex ("-" = empty).
+    reset                                         -> ok                 (fresh state, empty file system)
+    reopen <maxCached> <maxFileSize> <keep> <backup01> <compress01>
+                                                  -> walk <hash>,<hdr>,<height>,<blen>,<txs> …   | bad
+    add <hash> <height> <txcount> <trusted01> <raw> -> ok | bad
+    get <hash>                                    -> data <trusted01> <bytes> | err <kind> <trusted01> | bad
+    len <hash> <decode01>                         -> len <n> | lenerr | bad
+    trusted <hash> | invalid <hash> | idle | close -> ok | panic | bad
+    files                                         -> files idx:<len>:<fnv> dat<i>:<len>:<fnv> … old<i>:<len>:<fnv> …  (sorted by i)
+    file idx | file dat <i> | file old <i>        -> ok <bytes> | none
+    pos                                           -> pos <maxidxfilepos> <maxdatfilepos> <maxdatfileidx> <queued> <cached>
+    senc <bytes>                                  -> ok <bytes>
+    sdec <bytes>                                  -> ok <bytes> | err
+-/
+import GocoinV.Model.BlockDB
+import GocoinV.Model.Snappy
+import GocoinV.Base.Sha256
 import GocoinV.Base.Proto
-open GocoinV
-def main : IO Unit := Proto.serve () (fun _ _ => ((), "bad-op"))
+open GocoinV GocoinV.BlockDB
+
+def env : Env :=
+  { enc := Snappy.encode
+    dec := fun b => match Snappy.decode b with | .ok d => some d | .error _ => none
+    hash := sha256d
+    advInvalid := Gen.BlockDBFacts.advInvalid }
+
+def fnv (b : Bytes) : UInt64 :=
+  b.foldl (fun h x => (h ^^^ x.toUInt64) * 0x100000001b3) 0xcbf29ce484222325
+
+def fileSum (name : String) (b : Bytes) : String := s!"{name}:{b.length}:{(fnv b).toNat}"
+
+def sortFiles (l : List (Nat × Bytes)) : List (Nat × Bytes) :=
+  (l.toArray.qsort (fun a b => a.1 < b.1)).toList
+
+def errStr : GetErr → String
+  | .notInIndex => "notinindex" | .notWritten => "notwritten" | .purged => "purged" | .noFile => "nofile"
+  | .shortRead => "shortread" | .snappy => "snappy" | .gzip => "gzip"
+
+def outStr : Out → String
+  | .ok => "ok"
+  | .data b t => s!"data {Proto.boolStr t} {Hex.encode b}"
+  | .getErr e t => s!"err {errStr e} {Proto.boolStr t}"
+  | .len n => s!"len {n}"
+  | .lenErr => "lenerr"
+  | .walk rs => " ".intercalate ("walk" :: rs.map fun r =>
+      s!"{Hex.encode r.hash},{Hex.encode r.hdr},{r.height},{r.blen},{r.txs}")
+  | .panic => "panic"
+  | .bad => "bad"
+
+def b01 (s : String) : Option Bool := if s == "1" then some true else if s == "0" then some false else none
+
+def parseOp (toks : List String) : Option Op :=
+  match toks with
+  | ["reopen", mc, mf, k, bk, c] => do
+    let mc ← mc.toNat?; let mf ← mf.toNat?; let k ← k.toNat?; let bk ← b01 bk; let c ← b01 c
+    pure (.reopen ⟨mc, mf, k, bk, c⟩)
+  | ["add", h, ht, tx, tr, raw] => do
+    let h ← Hex.decode h; let ht ← ht.toNat?; let tx ← tx.toNat?; let tr ← b01 tr; let raw ← Hex.decode raw
+    pure (.add h ht tx tr raw)
+  | ["get", h] => do pure (.get (← Hex.decode h))
+  | ["len", h, d] => do pure (.length (← Hex.decode h) (← b01 d))
+  | ["trusted", h] => do pure (.trusted (← Hex.decode h))
+  | ["invalid", h] => do pure (.invalid (← Hex.decode h))
+  | ["idle"] => some .idle
+  | ["close"] => some .close
+  | _ => none
+
+def stepLine (s : State) (toks : List String) : State × String :=
+  match toks with
+  | ["reset"] => (init, "ok")
+  | ["files"] =>
+    let parts := [fileSum "idx" s.fs.idx]
+      ++ (sortFiles s.fs.dats).map (fun (i, b) => fileSum s!"dat{i}" b)
+      ++ (sortFiles s.fs.olds).map (fun (i, b) => fileSum s!"old{i}" b)
+    (s, " ".intercalate ("files" :: parts))
+  | ["file", "idx"] => (s, s!"ok {Hex.encode s.fs.idx}")
+  | ["file", "dat", i] =>
+    match i.toNat? with
+    | some i => (s, match AL.get s.fs.dats i with | some b => s!"ok {Hex.encode b}" | none => "none")
+    | none => (s, "bad-op")
+  | ["file", "old", i] =>
+    match i.toNat? with
+    | some i => (s, match AL.get s.fs.olds i with | some b => s!"ok {Hex.encode b}" | none => "none")
+    | none => (s, "bad-op")
+  | ["pos"] => (s, s!"pos {s.maxidxfilepos} {s.maxdatfilepos} {s.maxdatfileidx} {s.queue.length} {s.cache.length}")
+  | ["senc", b] =>
+    match Hex.decode b with
+    | some b => (s, s!"ok {Hex.encode (Snappy.encode b)}")
+    | none => (s, "bad-op")
+  | ["sdec", b] =>
+    match Hex.decode b with
+    | some b => (s, match Snappy.decode b with | .ok d => s!"ok {Hex.encode d}" | .error _ => "err")
+    | none => (s, "bad-op")
+  | _ =>
+    match parseOp toks with
+    | none => (s, "bad-op")
+    | some op =>
+      let (s', o) := step env s op
+      (s', outStr o)
+
+def main : IO Unit := Proto.serve init stepLine
